@@ -5,10 +5,12 @@ import (
 	"fmt"
 	"io/ioutil"
 	"math"
+	"math/big"
 	"os"
 	"os/exec"
 	"path/filepath"
 	"strconv"
+	"strings"
 
 	wt "github.com/hnakamur/whispertool"
 
@@ -36,7 +38,7 @@ func (c07) Meta() fw.Meta {
 			"CLI flag agreement is sampled (real process per invocation), not run for every candidate",
 		},
 		Obligations: []string{"newheader_accept", "newheader_reject", "create_accept", "create_reject", "parse_accept", "parse_reject", "takefrom_accept", "takefrom_reject", "open_accept", "open_reject", "cli_accept", "cli_reject",
-			"reject_equal_steps", "reject_out_of_order", "reject_size_beyond_4GiB", "reject_nondividing", "reject_equal_retention", "reject_too_few_points", "reject_zero", "reject_empty", "reject_overflow_offset", "reject_overflow_retention", "reject_method", "reject_xff_nan", "reject_xff_range", "accept_xff_negzero", "reopen_header_equal"},
+			"reject_equal_steps", "reject_out_of_order", "reject_size_beyond_4GiB", "reject_nondividing", "reject_equal_retention", "reject_too_few_points", "reject_zero", "reject_empty", "reject_overflow_offset", "reject_overflow_retention", "reject_method", "reject_xff_nan", "reject_xff_range", "accept_xff_negzero", "reopen_header_equal", "unit_retention_strings"},
 	}
 }
 
@@ -422,6 +424,38 @@ func (c07) Run(c *fw.Ctx) {
 				}
 			}
 			os.Remove(p)
+		}
+	}
+	// retention strings written with units: the meaning (number x unit) must fit 31 bits, no wrap-around
+	if c.Index%4 == 0 {
+		for _, str := range []string{"1y:68y", "1y:69y", "1s:137y", "1s:1193047h", "1s:49711d", "1s:7102w", "1s:71582789m", "1m:35791394m", "1m:35791395m", "1h:596523h", "1h:596524h", "1d:24855d", "1d:24856d", "1w:3550w", "1w:3551w",
+			"1s:1m,8s:137y", "1m:1h,1h:204y", "64s:137y", "1d:1w,1w:68y", "1d:1w,1w:3550w", "1d:1w,1w:7102w"} {
+			var archs []model.Arch
+			fits := true
+			for _, part := range strings.Split(str, ",") {
+				sp := strings.Split(part, ":")
+				_, _, m1 := durMeaning(sp[0])
+				_, _, m2 := durMeaning(sp[1])
+				if m1.Cmp(maxI32) > 0 || m2.Cmp(maxI32) > 0 || m1.Sign() == 0 || new(big.Int).Mod(m2, m1).Sign() != 0 {
+					fits = false // over-long, zero step, or a retention that is not a multiple of its step
+					break
+				}
+				archs = append(archs, model.Arch{Step: uint32(m1.Int64()), Points: uint32(m2.Int64() / m1.Int64())})
+			}
+			want := false
+			if fits {
+				v, _ := model.ValidLayout(archs)
+				if v == model.DontCare {
+					continue
+				}
+				want = v == model.Valid
+			}
+			pl, err := wt.ParseArchiveInfoList(str)
+			c.Count("unit_retention_strings", 1)
+			if (err == nil) != want {
+				c.Violationf("parse-units-"+map[bool]string{true: "rejects-valid", false: "accepts-invalid"}[want], fw.J{"input": str, "fits_31_bits": fits, "parsed": pl.String()},
+					"ParseArchiveInfoList(%q): accepted=%v, want %v (arithmetic meaning fits 31 bits: %v)", str, err == nil, want, fits)
+			}
 		}
 	}
 	for e, v := range t {
